@@ -162,3 +162,22 @@ theorem postFinish_no_panic (ty : τ) (parts : Parts) : (postFinish U lift ty pa
           rfl
 
 end Purl
+
+namespace Purl
+open Generated
+variable {τ ε : Type} (U : UnicodeOps) [LawfulUnicode U] (lift : PErr → ε)
+
+/-- every qualifier of a built PURL has a non-empty value -/
+theorem postFinish_vals_ne {ty : τ} {parts : Parts} {p : GPurl τ} (hq : QInv parts.quals)
+    (h : postFinish U lift ty parts = .ok p) : ∀ kv ∈ p.parts.quals, kv.2 ≠ [] := by
+  obtain ⟨_, _, _, _, _, _, hc⟩ := postFinish_ok U lift hq h
+  rcases hc with ⟨_, e⟩ | ⟨text, ck, t, _, ho, ht, e⟩
+  · rw [e]; exact nonEmptyQuals_values
+  · rw [e]
+    intro kv hm
+    rcases mem_upsert hm with e2 | m
+    · subst e2
+      exact toText_ne_nil (ofText_ne_nil U ho) ht
+    · exact nonEmptyQuals_values kv m
+
+end Purl
